@@ -52,7 +52,9 @@ def nests(rng, depth):
 
 WRAP = ["'p %s", "[%s]", "{ 'p %s }", "{ %s }", "<%s>", "%s ?", "%s !", "%s & {}", "%s | num", "%s ~ num", "%s :: <>", "rec x %s",
         "f %s", "(%s)", "/ { %s }", "/a ? %s", "%s on get -> <>", "get -> %s", "get : %s -> <>", "<status=%s, {}>", "<media=%s, {}>",
-        "<headers=%s, {}>", "%s", "f %s %s", "concat %s /x", "%s.x"]
+        "<headers=%s, {}>", "%s", "f %s %s", "concat %s /x", "%s.x",
+        "/x on get -> %s", "/x on put : %s -> <>", "/x on get -> %s :: <>", "/x on get -> <> :: %s", "rec x (/x on get -> x :: %s)", "/x ? { 'q %s }",
+        "get { 'q %s } -> <>", "(%s) on get -> %s"]
 
 
 def rec_shapes():
@@ -95,7 +97,11 @@ def in_process(chk, texts, label):
             if oc == "skipped":
                 continue
             if oc == "panic":
-                chk.violation("C04|panic|%s" % sig_of_panic(o.get("msg"), o.get("at")),
+                import progs
+                site, var = progs.crash_signature(o.get("msg") or "")
+                key = ("C04|eval-crash|%s|%s" % (site, var)) if site != "panic" else "C04|panic|%s" % sig_of_panic(o.get("msg"), o.get("at"))
+                SIG.setdefault(t, key)
+                chk.violation(key,
                               "%s panics on %r: %s at %s" % (fe, t[:60], (o.get("msg") or "")[:100], o.get("at")),
                               {"text": t, "front_end": fe, "panic": o})
             elif oc == "abort":
